@@ -35,9 +35,20 @@ def scratch(prefix="verif-"):
 _built = {}
 
 
+import threading
+_build_lock = threading.Lock()
+
+
 def build_harness(race=False, cmd="vharness"):
     """Build harness/cmd/<cmd> against the current working tree of /repo with hooks on."""
     key = cmd + ("-race" if race else "-plain")
+    if REPO != "/repo":
+        key = "alt-" + re.sub(r"[^A-Za-z0-9]", "_", REPO) + "-" + key
+    with _build_lock:
+        return _build_harness_locked(race, cmd, key)
+
+
+def _build_harness_locked(race, cmd, key):
     if key in _built:
         return _built[key]
     os.makedirs(BUILD, exist_ok=True)
@@ -53,7 +64,6 @@ def build_harness(race=False, cmd="vharness"):
         gm = open(os.path.join(alt, "go.mod")).read().replace("=> /repo", "=> " + REPO)
         open(os.path.join(alt, "go.mod"), "w").write(gm)
         hdir = alt
-        key = tag + "-" + key
     out = os.path.join(BUILD, key)
     gosum = os.path.join(hdir, "go.sum")
     if not os.path.exists(gosum) or REPO != "/repo":
